@@ -1,5 +1,6 @@
 """Lifecycle state names, SQL CAS statements, timeout constants and the control shape of the
-idle-release code -> lean/WfModel/GenLifecycle.lean.
+idle-release code -> lean/WfModel/GenLifecycle.lean (model constants) and, through
+harness/gen/lifecycle_shape.py, lean/WfModel/GenLifecycleShape.lean (SQL text, shapes, call sites).
 
 Re-read from /repo's current sources on every run:
 
@@ -481,11 +482,40 @@ def _lean_list(xs: list[str]) -> str:
 
 
 def generate(notes: list[str]) -> list[str]:
+    """the constants the executable model computes with (a change here rebuilds model and proofs)"""
     R = extract(notes)
     L = ["namespace GenLifecycle", ""]
     L.append("/-- `RunLifecycleState` member names, in declaration order, and their string values -/")
     L.append(f"def stateNames : List String := {_lean_list([n for n, _ in R['states']])}")
     L.append(f"def stateValues : List String := {_lean_list([v for _, v in R['states']])}")
+    L.append("")
+    d = R["sqlite"]
+    L.append("/-! states bound to the placeholders of the SQLite lock's CAS statements -/")
+    for m in ("create", "begin", "complete"):
+        L.append(f"def sqlite_{m}_to : String := {lean_str(d[m]['to'])}")
+        L.append(f"def sqlite_{m}_from : String := {lean_str(d[m]['from'])}")
+    r = d["resume"]
+    L.append(f"def sqlite_resume_to : String := {lean_str(r['to'])}")
+    L.append(f"def sqlite_resume_returnsWin : String := {lean_str(r['returnsWin'])}")
+    L.append(f"def sqlite_resume_returnsBusy : String := {lean_str(r['returnsBusy'])}")
+    L.append("")
+    cmp_src = r["cmp"]
+    L.append("/-- the crash-timeout comparison of `try_begin_resume` (`a` = time since `updated_at`, `b` = timeout), as written in the SQLite lock -/")
+    L.append(f"def crashExpired (a b : Nat) : Bool := {_CMP.get(cmp_src, 'false /- unknown comparison -/')}")
+    L.append(f"def crashTimeoutMs : Nat := {R['crashTimeoutMs']}")
+    L.append("")
+    L.append("/-- `_release_idle_handler` returns without releasing when `elapsedTooShort elapsed idle_timeout` -/")
+    L.append(f"def elapsedCmp : String := {lean_str(R['elapsedCmp'])}")
+    L.append(f"def elapsedTooShort (a b : Nat) : Bool := {_CMP.get(R['elapsedCmp'], 'true /- unknown comparison -/')}")
+    L.append("")
+    L.append("end GenLifecycle")
+    return L
+
+
+def generate_shape(notes: list[str]) -> list[str]:
+    """SQL text, control shapes, defaults and call sites: mentioned by the property theorems only"""
+    R = extract(notes)
+    L = ["namespace GenLifecycleShape", ""]
     L.append(f"def tableName : String := {lean_str(R['table'])}")
     L.append("")
     for key in ("sqlite", "pg"):
@@ -510,10 +540,6 @@ def generate(notes: list[str]) -> list[str]:
         L.append(f"def {key}_shape_resume : List String := {_lean_list(d['shape_resume'])}")
         L.append(f"def {key}_shape_begin : List String := {_lean_list(d['shape_begin'])}")
         L.append("")
-    cmp_src = R["sqlite"]["resume"]["cmp"]
-    L.append("/-- the crash-timeout comparison of `try_begin_resume` (`a` = seconds since `updated_at`, `b` = timeout), as written in the SQLite lock -/")
-    L.append(f"def crashExpired (a b : Nat) : Bool := {_CMP.get(cmp_src, 'false /- unknown comparison -/')}")
-    L.append(f"def crashTimeoutMs : Nat := {R['crashTimeoutMs']}")
     L.append(f"def pollMs : Nat := {R['pollMs']}")
     L.append(f"def dbosIdleDefaultMs : Nat := {R['dbosIdleDefaultMs']}")
     L.append(f"def idleDefaultMs : Nat := {R['idleDefaultMs']}")
@@ -521,13 +547,9 @@ def generate(notes: list[str]) -> list[str]:
     L.append("/-- production call sites of `RunLifecycleLock.create` (packages/*/src) -/")
     L.append(f"def createCallSites : List String := {_lean_list(R['createSites'])}")
     L.append("")
-    L.append("/-- `_release_idle_handler` returns without releasing when `elapsedTooShort elapsed idle_timeout` -/")
-    L.append(f"def elapsedCmp : String := {lean_str(R['elapsedCmp'])}")
-    L.append(f"def elapsedTooShort (a b : Nat) : Bool := {_CMP.get(R['elapsedCmp'], 'true /- unknown comparison -/')}")
-    L.append("")
     for k in ("ir_write", "ir_send", "ir_release", "ir_deferred", "ir_reload", "ir_run_workflow",
               "dbos_send", "dbos_release", "dbos_mark_released", "dbos_deferred", "dbos_resume", "dbos_write", "dbos_wait_receive"):
         L.append(f"def shape_{k} : List String := {_lean_list(R[k])}")
     L.append("")
-    L.append("end GenLifecycle")
+    L.append("end GenLifecycleShape")
     return L
